@@ -72,7 +72,7 @@ func main() {
 	r.Rule("case = (2-4 registry hosts out of a pool incl. same name/different port, each with own credential {user+password, +refresh token, refresh only, static access token, wrong password, none}, " +
 		"scheme {Basic, Bearer, open, unknown}, realm on {own host, foreign token host (possibly shared), another registry's host}; one auth.Client with cache flavour {none, NewCache, NewSingleContextCache}, ForceAttemptOAuth2 on/off). " +
 		"seq: history of 8-30 ops (requests GET/HEAD/POST/PUT/DELETE/ping/catalog/mount with scope hints {none, exact, oddly written, superset, extra repo, for another host, global}, token expiry, scheme change, realm move). " +
-		"conc: warm-up, then rounds of groups of identical cold requests released together with background traffic to other hosts; the token endpoint or the credential helper is held until all entered Cache.Set, then nobody / the fetch owner (once or twice in a row) / a waiter has its context ended by the harness with context.Canceled or context.DeadlineExceeded (manual contexts, no wall clock); plus unsynchronised storms and, for the single-context cache, probes of 2-8 concurrent requests with different scopes to one host that enter the host-keyed Cache.Set together (spin barrier in the hook). " +
+		"conc: warm-up, then rounds of groups of identical cold requests released together with background traffic to other hosts; the token endpoint or the credential helper is held until all entered Cache.Set, then nobody / the fetch owner (once or twice in a row) / a waiter has its context ended by the harness with context.Canceled or context.DeadlineExceeded (manual contexts, no wall clock); plus unsynchronised storms and, for the single-context cache, probes of 3-8 concurrent requests with different scopes to one host that enter the host-keyed Cache.Set together (spin barrier in the hook). " +
 		"Every request at the innermost transport is scanned for every secret (raw, base64, form/query-decoded); every returned response is matched with the registry model's last answer. " +
 		"distinct = hash(flavour, force, per-registry (scheme, realm kind, credential kind), op / round shapes); non-trivial = at least one send happened while the client held a secret or token of another host, and (seq) a cached token was presented by a request other than the one that fetched it, or the flavour is none, " +
 		"(conc) at least one group had >= 2 live requests and its token fetch or credential lookup was held while all of them were inside Cache.Set (for flavour none: all held at once)")
@@ -956,7 +956,7 @@ func runConc(e *env, i int) {
 			_ = ok
 			continue
 		}
-		if e.flavour == "single" && rng.IntN(4) == 0 {
+		if e.flavour == "single" && rng.IntN(2) == 0 {
 			shape = append(shape, singleCtxProbe(e, rd))
 			continue
 		}
@@ -1071,7 +1071,7 @@ func singleCtxProbe(e *env, rd int) string {
 		return "probe-none"
 	}
 	rs := e.regs[reg]
-	k := 2 + rng.IntN(7)
+	k := 3 + rng.IntN(6)
 	var specs []*reqSpec
 	for j := 0; j < k; j++ {
 		sp := e.genRequest(reg, fmt.Sprintf("probe%d-%d/%s", rd, j, e.repos[rng.IntN(len(e.repos))]))
